@@ -13,5 +13,5 @@ echo "== tests with the change (in the agent's worktree)"
 cargo test --workspace --no-fail-fast --offline 2>&1 | grep -E "^test result" | head -1
 mkdir -p /verif/seeded/$NAME
 for f in patch.diff meta.json demo.asm demo2.asm demo_mesen.asm demo.sh demo_macro.asm demo_inlined.asm demo_a.asm demo_b.asm demo_original.txt demo_changed.txt; do [ -f $W/$f ] && cp $W/$f /verif/seeded/$NAME/; done
-[ -d $W/demo ] && cp -r $W/demo /verif/seeded/$NAME/; true
+[ -d $W/demo ] && rsync -a --exclude "target*" --exclude "customasm_*" $W/demo /verif/seeded/$NAME/; true
 ls /verif/seeded/$NAME
